@@ -5,6 +5,13 @@ use crate::trees::{Elem, Tree};
 
 pub const UMAX: usize = usize::MAX;
 
+/// Arguments whose product with 2 / 4 / 256 / 512 (bits per symbol, symbols per line, bits per line) wraps around to a
+/// valid position: a bound check written in the scaled unit lets them through.
+pub fn wrap_args(n: usize) -> [usize; 5] {
+    let d = n.saturating_sub(1);
+    [1 << 63, (1 << 63) + d, (1 << 62) + d, (1 << 56) + d, (1 << 55) + d]
+}
+
 /// Positions to query for a sequence of length n.
 pub fn positions(n: usize, dense_limit: usize) -> Vec<usize> {
     let mut v: Vec<usize> = Vec::new();
@@ -27,6 +34,7 @@ pub fn positions(n: usize, dense_limit: usize) -> Vec<usize> {
     }
     v.push(UMAX - 1);
     v.push(UMAX);
+    v.extend(wrap_args(n));
     v.sort_unstable();
     v.dedup();
     v
@@ -48,6 +56,7 @@ pub fn occ_indices(count: usize, dense_limit: usize) -> Vec<usize> {
     }
     v.push(UMAX - 1);
     v.push(UMAX);
+    v.extend(wrap_args(count));
     v.sort_unstable();
     v.dedup();
     v
